@@ -102,6 +102,15 @@ Proof.
   apply filter_length_lt with (x := x); [exact Hx|]. rewrite Hf. reflexivity.
 Qed.
 
+Lemma q_take_size l f me : forall q q', q_take l f me q = Some q' -> q_size q' < q_size q.
+Proof.
+  induction q as [|[l' es] q IH]; intros q' H; simpl in H; [discriminate|].
+  destruct (loc_eqb l' l && existsb (ematch f me) es) eqn:E.
+  - inversion H; subst. apply andb_prop in E. destruct E as [_ E]. simpl.
+    pose proof (filter_drop_lt _ _ E). lia.
+  - destruct (q_take l f me q) as [r|]; [|discriminate]. inversion H; subst. simpl. specialize (IH r eq_refl). lia.
+Qed.
+
 Section Total.
   Variables (s : schema) (frs : list (str * (ty * list selection))) (H : nat).
   Hypothesis HH : forall f tc body, alookup f frs = Some (tc, body) -> sels_h body <= H.
@@ -158,10 +167,10 @@ Section Total.
       pose proof (hs_le_hm m1 k fs1 g1 Hk Hx). pose proof (hs_le_hm m2 k fs2 g2 (alookup_In _ _ _ E2) Hy).
       unfold need. cbn [rho]. lia.
     - (* CFieldsFrag *)
-      destruct (existsb (qkey_match mid fr me) (snd st)) eqn:Ex; simpl;
+      destruct (q_take mid fr me (snd st)) as [q'|] eqn:Ex;
         [|eexists; eexists; split; [reflexivity|lia]].
-      pose proof (filter_drop_lt _ _ Ex) as Hlt.
-      set (st1 := (fst st, filter (fun k => negb (qkey_match mid fr me k)) (snd st))).
+      pose proof (q_take_size _ _ _ _ _ Ex) as Hlt.
+      set (st1 := (fst st, q')).
       assert (Hs1 : state_size st1 < state_size st) by (unfold state_size, st1; simpl; lia).
       destruct (frag_ff s frs fr) as [[fm2 fns]|] eqn:Ef; [|eexists; eexists; split; [reflexivity|lia]].
       destruct (Hseq (CBetween me m fm2 :: map (CFieldsFrag me mid m) fns) st1 false (state_size st1)) as (b' & st' & Hr & Hle);
